@@ -218,26 +218,24 @@ theorem errcheck_setIds {t : Table α} (hv : Valid t) {ax : Axis} {ids' : List I
   | obs => exact errcheck_ok_of_nodup hn hv.sampNodup
   | samp => exact errcheck_ok_of_nodup hv.obsNodup hn
 
-/-- the allocated width never truncates: whenever the width computation succeeds, the loop yields
+/-- the allocated width never truncates: for every id_map (the empty one included) the loop yields
 exactly `id_map.get(old, old)` for every ID, or the strict-mode refusal -/
-theorem updateIds_width_fits {m : List (Id × Id)} {ids : List Id} {strict : Bool} {w : Nat}
-    (hw : idWidth m ids strict = .ok w) (hk : strict = true → ∀ i ∈ ids, (m.lookup i).isSome = true) :
-    relabel m strict w ids = .ok (target m ids) :=
-  relabel_ok (idWidth_ok hw).1 (idWidth_ok hw).2 hk
+theorem updateIds_width_fits (m : List (Id × Id)) (ids : List Id) (strict : Bool)
+    (hk : strict = true → ∀ i ∈ ids, (m.lookup i).isSome = true) :
+    relabel m strict (idWidth m ids strict) ids = .ok (target m ids) :=
+  relabel_ok (idWidth_ok m ids strict).1 (idWidth_ok m ids strict).2 hk
 
 /-- complete description of an accepted call: for an id_map that (when strict) covers the axis and
 whose result has no duplicate, the receiver (or its copy) gets the relabelled IDs and nothing else changes -/
 theorem updateIds_ok {t : Table α} (hv : Valid t) {m : List (Id × Id)} {ax : Axis} {strict inplace : Bool}
-    (hm : m ≠ []) (hi : strict = false → t.ids ax ≠ [])
     (hk : strict = true → ∀ i ∈ t.ids ax, (m.lookup i).isSome = true)
     (hinj : (target m (t.ids ax)).Nodup) :
     updateIds t m ax strict inplace =
       (if inplace then
         { result := .ok (setIds t ax (target m (t.ids ax))), after := setIds t ax (target m (t.ids ax)), same := true }
        else { result := .ok (setIds (norm t) ax (target m (t.ids ax))), after := t }) := by
-  obtain ⟨w, hw⟩ := idWidth_exists (ids := t.ids ax) hm hi
   unfold updateIds
-  simp only [hw, updateIds_width_fits hw hk]
+  simp only [updateIds_width_fits m (t.ids ax) strict hk]
   cases inplace with
   | true =>
     simp only [if_true, (distinct_iff _).mpr hinj, Bool.not_true, Bool.false_eq_true, if_false,
@@ -249,13 +247,12 @@ theorem updateIds_ok {t : Table α} (hv : Valid t) {m : List (Id × Id)} {ax : A
 renaming observations by an injective `ρ` (total, or partial with `strict=False`; IDs may get longer
 or shorter) gives `cell t' (ρ o) s = cell t o s` -/
 theorem updateIds_cell_obs {t : Table α} (hv : Valid t) {m : List (Id × Id)} {strict inplace : Bool}
-    (hm : m ≠ []) (hi : strict = false → t.obs ≠ [])
     (hk : strict = true → ∀ i ∈ t.obs, (m.lookup i).isSome = true)
     (hinj : (t.obs.map (rho m)).Nodup) :
     ∃ r, (updateIds t m .obs strict inplace).result = .ok r ∧ r.obs = t.obs.map (rho m) ∧ r.samp = t.samp ∧
       (∀ o ∈ t.obs, ∀ s, r.cell? (rho m o) s = t.cell? o s) ∧
       (∀ o ∈ t.obs, mdE r .obs (rho m o) = mdE t .obs o) ∧ (∀ s, mdE r .samp s = mdE t .samp s) := by
-  have h := updateIds_ok hv (ax := .obs) (inplace := inplace) hm hi hk hinj
+  have h := updateIds_ok hv (ax := .obs) (inplace := inplace) hk hinj
   have hl : t.obs.length = (t.obs.map (rho m)).length := by simp
   cases inplace with
   | true =>
@@ -278,13 +275,12 @@ theorem updateIds_cell_obs {t : Table α} (hv : Valid t) {m : List (Id × Id)} {
 
 /-- the same for renaming samples: `cell t' o (ρ s) = cell t o s` -/
 theorem updateIds_cell_samp {t : Table α} (hv : Valid t) {m : List (Id × Id)} {strict inplace : Bool}
-    (hm : m ≠ []) (hi : strict = false → t.samp ≠ [])
     (hk : strict = true → ∀ i ∈ t.samp, (m.lookup i).isSome = true)
     (hinj : (t.samp.map (rho m)).Nodup) :
     ∃ r, (updateIds t m .samp strict inplace).result = .ok r ∧ r.samp = t.samp.map (rho m) ∧ r.obs = t.obs ∧
       (∀ s ∈ t.samp, ∀ o, r.cell? o (rho m s) = t.cell? o s) ∧
       (∀ s ∈ t.samp, mdE r .samp (rho m s) = mdE t .samp s) ∧ (∀ o, mdE r .obs o = mdE t .obs o) := by
-  have h := updateIds_ok hv (ax := .samp) (inplace := inplace) hm hi hk hinj
+  have h := updateIds_ok hv (ax := .samp) (inplace := inplace) hk hinj
   have hl : t.samp.length = (t.samp.map (rho m)).length := by simp
   cases inplace with
   | true =>
@@ -308,27 +304,25 @@ theorem updateIds_cell_samp {t : Table α} (hv : Valid t) {m : List (Id × Id)} 
 /-- with `strict=True` an ID of the axis that is not a key of `id_map` is refused and the receiver
 is left as it was -/
 theorem updateIds_refuses_missing_strict {t : Table α} {m : List (Id × Id)} {ax : Axis} {inplace : Bool}
-    (hm : m ≠ []) (h : ∃ i ∈ t.ids ax, m.lookup i = none) :
+    (h : ∃ i ∈ t.ids ax, m.lookup i = none) :
     (updateIds t m ax true inplace).result = .error .tableException ∧
     (updateIds t m ax true inplace).after = t := by
-  obtain ⟨w, hw⟩ := idWidth_exists (ids := t.ids ax) (strict := true) hm (fun h => by cases h)
   unfold updateIds
-  simp only [hw, relabel_missing h]
+  simp only [relabel_missing h]
   constructor <;> first | rfl | trivial
 
 /-- a renaming whose result would carry an ID twice is refused and the receiver is left as it was
 (`inplace`, or any non-empty table) -/
 theorem updateIds_refuses_noninjective {t : Table α} (hv : Valid t) {m : List (Id × Id)} {ax : Axis}
-    {strict inplace : Bool} (hm : m ≠ []) (hi : strict = false → t.ids ax ≠ [])
+    {strict inplace : Bool}
     (hk : strict = true → ∀ i ∈ t.ids ax, (m.lookup i).isSome = true)
     (hdup : ¬ (target m (t.ids ax)).Nodup) (hne : inplace = true ∨ t.ids ax.other ≠ []) :
     (updateIds t m ax strict inplace).result = .error .tableException ∧
     (updateIds t m ax strict inplace).after = t := by
-  obtain ⟨w, hw⟩ := idWidth_exists (ids := t.ids ax) hm hi
   have hd : distinct (target m (t.ids ax)) = false := by
     rw [Bool.eq_false_iff]; intro h; exact hdup ((distinct_iff _).mp h)
   unfold updateIds
-  simp only [hw, updateIds_width_fits hw hk]
+  simp only [updateIds_width_fits m (t.ids ax) strict hk]
   cases inplace with
   | true => simp only [if_true, hd, Bool.not_false]; constructor <;> first | rfl | trivial
   | false =>
@@ -349,29 +343,35 @@ theorem updateIds_refusal_leaves_receiver {t : Table α} (hv : Valid t) (m : Lis
     (strict inplace : Bool) (e : Err) (h : (updateIds t m ax strict inplace).result = .error e) :
     (updateIds t m ax strict inplace).after = t := by
   unfold updateIds at h ⊢
-  cases hw : idWidth m (t.ids ax) strict with
+  cases hr : relabel m strict (idWidth m (t.ids ax) strict) (t.ids ax) with
   | error e' => rfl
-  | ok w =>
-    simp only [hw] at h ⊢
-    cases hr : relabel m strict w (t.ids ax) with
-    | error e' => rfl
-    | ok ids' =>
-      simp only [hr] at h ⊢
-      cases inplace with
-      | false =>
-        simp only [Bool.false_eq_true, if_false] at h ⊢
-        cases copy t with
-        | error e' => rfl
-        | ok c =>
-          simp only
-          cases errcheck (setIds c ax ids') <;> rfl
-      | true =>
-        simp only [if_true] at h ⊢
-        by_cases hd : distinct ids' = true
-        · simp only [hd, Bool.not_true, Bool.false_eq_true, if_false,
-            errcheck_setIds hv ((distinct_iff _).mp hd)] at h
-          cases h
-        · simp only [hd, Bool.not_false, if_true]
+  | ok ids' =>
+    simp only [hr] at h ⊢
+    cases inplace with
+    | false =>
+      simp only [Bool.false_eq_true, if_false] at h ⊢
+      cases copy t with
+      | error e' => rfl
+      | ok c =>
+        simp only
+        cases errcheck (setIds c ax ids') <;> rfl
+    | true =>
+      simp only [if_true] at h ⊢
+      by_cases hd : distinct ids' = true
+      · simp only [hd, Bool.not_true, Bool.false_eq_true, if_false,
+          errcheck_setIds hv ((distinct_iff _).mp hd)] at h
+        cases h
+      · simp only [hd, Bool.not_false, if_true]
+
+/-- an empty `id_map` with `strict=False` renames nothing: the receiver comes back as it is -/
+theorem updateIds_emptyMap_keeps {t : Table α} (hv : Valid t) (ax : Axis) :
+    (updateIds t [] ax false true).result = .ok t ∧ (updateIds t [] ax false true).after = t ∧
+    (updateIds t [] ax false false).result = .ok (norm t) ∧ (updateIds t [] ax false false).after = t := by
+  have ht : target [] (t.ids ax) = t.ids ax := by simp [target]
+  have hinj : (target [] (t.ids ax)).Nodup := by rw [ht]; exact ids_nodup hv ax
+  have hk : false = true → ∀ i ∈ t.ids ax, (([] : List (Id × Id)).lookup i).isSome = true := fun h => by cases h
+  rw [updateIds_ok hv (inplace := true) hk hinj, updateIds_ok hv (inplace := false) hk hinj, ht]
+  cases ax <;> exact ⟨rfl, rfl, rfl, rfl⟩
 
 /-! ### align_to -/
 
@@ -680,39 +680,26 @@ omit [DecidableEq α] in
 theorem updateIds_not_inplace (t : Table α) (m : List (Id × Id)) (ax : Axis) (strict : Bool) :
     (updateIds t m ax strict false).after = t ∧ (updateIds t m ax strict false).same = false := by
   unfold updateIds
-  cases idWidth m (t.ids ax) strict with
+  cases relabel m strict (idWidth m (t.ids ax) strict) (t.ids ax) with
   | error e => exact ⟨rfl, rfl⟩
-  | ok w =>
-    simp only
-    cases relabel m strict w (t.ids ax) with
+  | ok ids' =>
+    simp only [Bool.false_eq_true, if_false]
+    cases copy t with
     | error e => exact ⟨rfl, rfl⟩
-    | ok ids' =>
-      simp only [Bool.false_eq_true, if_false]
-      cases copy t with
-      | error e => exact ⟨rfl, rfl⟩
-      | ok c =>
-        simp only
-        cases errcheck (setIds c ax ids') <;> exact ⟨rfl, rfl⟩
+    | ok c =>
+      simp only
+      cases errcheck (setIds c ax ids') <;> exact ⟨rfl, rfl⟩
 
-theorem updateIds_holds_partial {t : Table α} (hv : Valid t) (m : List (Id × Id)) (ax : Axis)
-    (strict inplace : Bool) (hg : nondegenerate t (.updateIds m ax strict inplace) = true) :
+theorem updateIds_holds {t : Table α} (hv : Valid t) (m : List (Id × Id)) (ax : Axis)
+    (strict inplace : Bool) :
     holds t (.updateIds m ax strict inplace) (run t (.updateIds m ax strict inplace)) = true := by
   have hvalid : valid t = true := (valid_iff t).mpr hv
-  have hm : m ≠ [] := by
-    intro e; subst e; simp [nondegenerate] at hg
-  have hi : strict = false → t.ids ax ≠ [] := by
-    intro hs e; simp [nondegenerate, hs, e] at hg
-  have hdeg : (m.isEmpty || (!strict && (t.ids ax).isEmpty)) = false := by
-    have h1 : m.isEmpty = false := by simpa using hm
-    cases strict with
-    | true => simp [h1]
-    | false => have := hi rfl; simp [h1, this]
   by_cases hmiss : strict = true ∧ ∃ i ∈ t.ids ax, m.lookup i = none
   · obtain ⟨hs, hex⟩ := hmiss
     subst hs
-    obtain ⟨h1, h2⟩ := updateIds_refuses_missing_strict (t := t) (ax := ax) (inplace := inplace) hm hex
+    obtain ⟨h1, h2⟩ := updateIds_refuses_missing_strict (t := t) (ax := ax) (inplace := inplace) hex
     have hmb := (missing_iff m (t.ids ax) true).mpr ⟨rfl, hex⟩
-    simp only [holds, clauses, run, updateIdsClauses, List.all_cons, List.all_nil, h1, h2, hvalid, hmb, hdeg,
+    simp only [holds, clauses, run, updateIdsClauses, List.all_cons, List.all_nil, h1, h2, hvalid, hmb,
       isErr, isOk, onOk]
     simp
   · have hmb : (strict && (t.ids ax).any fun i => (m.lookup i).isNone) = false := by
@@ -724,7 +711,7 @@ theorem updateIds_holds_partial {t : Table α} (hv : Valid t) (m : List (Id × I
       | none => exact absurd ⟨hs, i, hi', hl⟩ hmiss
     by_cases hinj : (target m (t.ids ax)).Nodup
     · have hd := (distinct_iff _).mpr hinj
-      have hres := updateIds_ok hv (inplace := inplace) hm hi hk hinj
+      have hres := updateIds_ok hv (inplace := inplace) hk hinj
       have hl : (t.ids ax).length = (target m (t.ids ax)).length := by simp
       have hwf1 : (setIds t ax (target m (t.ids ax))).wfb = true :=
         (wfb_iff _).mpr (setIds_WF hv.wf hl.symm)
@@ -732,7 +719,7 @@ theorem updateIds_holds_partial {t : Table α} (hv : Valid t) (m : List (Id × I
       have hmdo := mdById_setIds_other t ax (target m (t.ids ax))
       cases inplace with
       | true =>
-        simp only [holds, clauses, run, updateIdsClauses, List.all_cons, List.all_nil, hres, hvalid, hmb, hdeg, hd,
+        simp only [holds, clauses, run, updateIdsClauses, List.all_cons, List.all_nil, hres, hvalid, hmb, hd,
           isErr, isOk, onOk]
         simp [hwf1, hrel, hmdo]
       | false =>
@@ -743,13 +730,13 @@ theorem updateIds_holds_partial {t : Table α} (hv : Valid t) (m : List (Id × I
           rw [setIds_norm, relabelled_norm]; exact hrel
         have hmdo2 : mdById t (setIds (norm t) ax (target m (t.ids ax))) ax.other = true := by
           rw [setIds_norm, mdById_norm]; exact hmdo
-        simp only [holds, clauses, run, updateIdsClauses, List.all_cons, List.all_nil, hres, hvalid, hmb, hdeg, hd,
+        simp only [holds, clauses, run, updateIdsClauses, List.all_cons, List.all_nil, hres, hvalid, hmb, hd,
           isErr, isOk, onOk]
         simp [hwf2, hrel2, hmdo2]
     · have hd := distinct_false hinj
       by_cases hne : inplace = true ∨ t.ids ax.other ≠ []
-      · obtain ⟨h1, h2⟩ := updateIds_refuses_noninjective hv (strict := strict) hm hi hk hinj hne
-        simp only [holds, clauses, run, updateIdsClauses, List.all_cons, List.all_nil, h1, h2, hvalid, hmb, hdeg, hd,
+      · obtain ⟨h1, h2⟩ := updateIds_refuses_noninjective hv (strict := strict) hk hinj hne
+        simp only [holds, clauses, run, updateIdsClauses, List.all_cons, List.all_nil, h1, h2, hvalid, hmb, hd,
           isErr, isOk, onOk]
         simp
       · have hip : inplace = false := by
@@ -760,46 +747,30 @@ theorem updateIds_holds_partial {t : Table α} (hv : Valid t) (m : List (Id × I
           apply Classical.byContradiction; intro h; exact hne (Or.inr h)
         subst hip
         obtain ⟨h1, h2⟩ := updateIds_not_inplace t m ax strict
-        simp only [holds, clauses, run, updateIdsClauses, List.all_cons, List.all_nil, h1, h2, hvalid, hmb, hdeg, hd, he]
+        simp only [holds, clauses, run, updateIdsClauses, List.all_cons, List.all_nil, h1, h2, hvalid, hmb, hd, he]
         simp
 
-/-- domain condition of a call: the other table of `align_to` has distinct IDs; the call is not one
-of the degenerate `update_ids` calls (empty `id_map`, or `strict=False` on an axis without IDs) -/
-def opOk (t : Table α) : Op → Bool
+/-- domain condition of a call: the other table of `align_to` is a table, so its IDs are distinct -/
+def otherValid : Op → Bool
   | .alignTo oObs oSamp _ => distinct oObs && distinct oSamp
-  | op => nondegenerate t op
+  | _ => true
 
 /-- The property predicate is true of what the model computes — for every valid table of every
 size, every requested order (permutation or not), every list a sort function may return, every
-other table and axis argument, every id_map (total, partial, colliding, longer, shorter), strict
-or not, in place or not.  `_partial`: guarded by `opOk`, which excludes exactly the `update_ids`
-calls with an empty `id_map` (or `strict=False` on an axis without IDs), where the code raises
-`ValueError` from `max([])` — see `updateIds_emptyMap_witness`. -/
-theorem model_holds_partial {t : Table α} (hv : valid t = true) (op : Op) (hop : opOk t op = true) :
+other table and axis argument, every id_map (empty, total, partial, colliding, longer, shorter),
+strict or not, in place or not. -/
+theorem model_holds {t : Table α} (hv : valid t = true) (op : Op) (hop : otherValid op = true) :
     holds t op (run t op) = true := by
   have hv' := (valid_iff t).mp hv
   cases op with
   | sortOrder order ax => exact sortOrder_holds hv' order ax
   | sort sorted ax => exact sort_holds hv' sorted ax
   | alignTo oo os ax =>
-    simp only [opOk, Bool.and_eq_true, distinct_iff] at hop
+    simp only [otherValid, Bool.and_eq_true, distinct_iff] at hop
     exact alignTo_holds hv' hop.1 hop.2 ax
   | transpose => exact transpose_holds hv'
   | copy => exact copy_holds hv'
-  | updateIds m ax strict inplace => exact updateIds_holds_partial hv' m ax strict inplace hop
-
-/-- every operation except the degenerate `update_ids` calls: the full statement -/
-theorem model_holds {t : Table α} (hv : valid t = true) (op : Op)
-    (hop : ∀ m ax strict inplace, op ≠ .updateIds m ax strict inplace)
-    (hother : ∀ oo os ax, op = .alignTo oo os ax → oo.Nodup ∧ os.Nodup) :
-    holds t op (run t op) = true := by
-  apply model_holds_partial hv
-  cases op with
-  | alignTo oo os ax =>
-    obtain ⟨h1, h2⟩ := hother oo os ax rfl
-    simp [opOk, (distinct_iff _).mpr h1, (distinct_iff _).mpr h2]
-  | updateIds m ax strict inplace => exact absurd rfl (hop m ax strict inplace)
-  | _ => rfl
+  | updateIds m ax strict inplace => exact updateIds_holds hv' m ax strict inplace
 
 /-- reordering by a permutation and back, observed by content: IDs, order, cells and metadata by ID -/
 theorem sortOrder_inverse_restored {t r r2 : Table α} {order : List Id} {ax : Axis} (hv : Valid t)
@@ -831,14 +802,12 @@ def demo : Table Nat :=
 
 theorem demo_valid : Valid demo := (valid_iff demo).mp (by decide)
 
-/-- The guard of `model_holds_partial` cannot be dropped: on a valid table, `update_ids({}, strict=False)`
-asks for no change at all, yet the code (and the model) raises `ValueError`; the property predicate is false. -/
-theorem updateIds_emptyMap_witness :
-    valid demo = true ∧
-    isErr (run demo (.updateIds [] .samp false true)).result .value = true ∧
-    holds demo (.updateIds [] .samp false true) (run demo (.updateIds [] .samp false true)) = false ∧
-    isErr (run demo (.updateIds [] .samp true false)).result .value = true ∧
-    holds demo (.updateIds [] .samp true false) (run demo (.updateIds [] .samp true false)) = false := by
+-- the input that used to crash (`update_ids({}, …)` raised ValueError from `max([])` before the repair):
+-- strict=False keeps every ID, strict=True refuses the first unmapped ID, and the predicate holds
+example : (updateIds demo [] .samp false true).result = .ok demo ∧
+    isErr (updateIds demo [] .samp true false).result .tableException = true ∧
+    holds demo (.updateIds [] .samp false true) (run demo (.updateIds [] .samp false true)) = true ∧
+    holds demo (.updateIds [] .samp true false) (run demo (.updateIds [] .samp true false)) = true := by
   decide
 
 example : ["s3", "s1", "s2"].Perm (demo.ids .samp) := List.isPerm_iff.mp (by decide)
@@ -869,24 +838,24 @@ example : ∃ r, (updateIds demo [("o1", "o1_much_longer_id")] .obs false false)
     r.obs = ["o1_much_longer_id", "o2"] ∧ r.cell? "o1_much_longer_id" "s3" = some 3 ∧
     mdE r .obs "o1_much_longer_id" = mdE demo .obs "o1" := by
   obtain ⟨r, h1, h2, _, h4, h5, _⟩ := updateIds_cell_obs (m := [("o1", "o1_much_longer_id")]) (strict := false)
-    (inplace := false) demo_valid (by decide) (by decide) (by decide) (by decide)
+    (inplace := false) demo_valid (by decide) (by decide)
   exact ⟨r, h1, h2, h4 "o1" (by decide) "s3", h5 "o1" (by decide)⟩
 
 -- a shortening, total renaming with strict=True, in place
 example : ∃ r, (updateIds demo [("s1", "a"), ("s2", "b"), ("s3", "c")] .samp true true).result = .ok r ∧
     r.samp = ["a", "b", "c"] ∧ ∀ o, r.cell? o "c" = demo.cell? o "s3" := by
   obtain ⟨r, h1, h2, _, h4, _, _⟩ := updateIds_cell_samp (m := [("s1", "a"), ("s2", "b"), ("s3", "c")])
-    (strict := true) (inplace := true) demo_valid (by decide) (by decide) (by decide) (by decide)
+    (strict := true) (inplace := true) demo_valid (by decide) (by decide)
   exact ⟨r, h1, h2, fun o => h4 "s3" (by decide) o⟩
 
 -- updateIds_refuses_noninjective / updateIds_refuses_missing_strict
 example : (updateIds demo [("o1", "o2")] .obs false true).result = .error .tableException ∧
     (updateIds demo [("o1", "o2")] .obs false true).after = demo :=
-  updateIds_refuses_noninjective demo_valid (by decide) (by decide) (by decide) (by decide) (by decide)
+  updateIds_refuses_noninjective demo_valid (by decide) (by decide) (by decide)
 
 example : (updateIds demo [("s1", "x")] .samp true false).result = .error .tableException ∧
     (updateIds demo [("s1", "x")] .samp true false).after = demo :=
-  updateIds_refuses_missing_strict (by decide) ⟨"s2", by decide, by decide⟩
+  updateIds_refuses_missing_strict ⟨"s2", by decide, by decide⟩
 
 -- alignTo_order: both axes permuted in the other table; alignTo_refuses_disjoint
 example : ∃ r, alignTo demo ["o2", "o1"] ["s2", "s3", "s1"] .both = .ok r ∧ r.obs = ["o2", "o1"] ∧
@@ -905,7 +874,7 @@ example : ∃ r, alignTo demo ["o2", "o1"] ["s2", "s3", "s1"] .both = .ok r ∧ 
 example : alignTo demo ["o2", "o1"] ["s2", "s3"] .sample = .error .disjointId :=
   alignTo_refuses_disjoint (by decide) (by decide)
 
-example : opOk demo (.updateIds [("o1", "x")] .obs false true) = true := by decide
+example : otherValid (.alignTo ["o2", "o1"] ["s2", "s3", "s1"] .both) = true := by decide
 
 end Biom.C06
 
